@@ -320,6 +320,60 @@ theorem prepared_atom_has_slice (ts : List Rat) (h : ∀ t ∈ ts, 0 < t) (hne :
     (hH : nudgeEps < listSum ts) : label ts (prepareZ (listSum ts) z) < ts.length :=
   (label_lt_iff ts _ h hne).mpr (prepareZ_lt_drop (listSum ts) z hH)
 
+/-! ### finite projection: membership test of `SlicedAtoms` (generated `inSliceLo`, `inSliceHi`) -/
+
+/-- the membership test of `SlicedAtoms` is the half-open interval `[a − pad, b + pad)` -/
+theorem inSlice_iff (z a b pad : Rat) :
+    (inSliceLo z a b pad && inSliceHi z a b pad) = true ↔ a - pad ≤ z ∧ z < b + pad := by
+  unfold inSliceLo inSliceHi
+  simp only [Bool.and_eq_true, decide_eq_true_eq, ge_iff_le]
+
+/-- number of slices (entrance/exit pairs started at `acc`) whose un-padded interval contains `z` -/
+def cnt (acc : Rat) (ts : List Rat) (z : Rat) : Nat :=
+  ((List.zip (acc :: cumsumFrom acc ts) (cumsumFrom acc ts)).filter fun p =>
+    inSliceLo z p.1 p.2 0 && inSliceHi z p.1 p.2 0).length
+
+lemma cnt_cons (acc t : Rat) (ts : List Rat) (z : Rat) :
+    cnt acc (t :: ts) z = (if acc ≤ z ∧ z < acc + t then 1 else 0) + cnt (acc + t) ts z := by
+  unfold cnt
+  simp only [cumsumFrom, List.zip_cons_cons, List.filter_cons]
+  by_cases h : acc ≤ z ∧ z < acc + t
+  · have : (inSliceLo z acc (acc + t) 0 && inSliceHi z acc (acc + t) 0) = true := (inSlice_iff _ _ _ _).mpr (by simpa using h)
+    simp [this, h]; omega
+  · have : ¬ (inSliceLo z acc (acc + t) 0 && inSliceHi z acc (acc + t) 0) = true := fun hc => h (by simpa using (inSlice_iff _ _ _ _).mp hc)
+    simp [this, h]
+
+lemma cnt_zero_of_lt (acc : Rat) (ts : List Rat) (z : Rat) (h : ∀ t ∈ ts, 0 < t) (hz : z < acc) : cnt acc ts z = 0 := by
+  induction ts generalizing acc with
+  | nil => rfl
+  | cons t ts ih =>
+    have ht := h t (by simp)
+    rw [cnt_cons, if_neg (by intro hc; linarith [hc.1]), ih (acc + t) (fun x hx => h x (by simp [hx])) (by linarith)]
+
+/-- **finite projection, zero padding**: an atom centre inside the cell lies in exactly one slice interval -/
+theorem sliced_unique_pad0 (acc : Rat) (ts : List Rat) (z : Rat) (h : ∀ t ∈ ts, 0 < t) (hlo : acc ≤ z)
+    (hhi : z < acc + listSum ts) : cnt acc ts z = 1 := by
+  induction ts generalizing acc with
+  | nil => simp [listSum] at hhi; linarith
+  | cons t ts ih =>
+    have ht := h t (by simp)
+    simp only [listSum] at hhi
+    rw [cnt_cons]
+    by_cases h1 : z < acc + t
+    · rw [if_pos ⟨hlo, h1⟩, cnt_zero_of_lt (acc + t) ts z (fun x hx => h x (by simp [hx])) h1]
+    · rw [if_neg (by intro hc; exact h1 hc.2), ih (acc + t) (fun x hx => h x (by simp [hx])) (by linarith) (by linarith)]
+
+/-- the count is taken over exactly the limits `slice_limits` produces -/
+theorem cnt_eq_sliceLimits (ts : List Rat) (z : Rat) :
+    cnt 0 ts z = ((sliceLimits ts).filter fun p => inSliceLo z p.1 p.2 0 && inSliceHi z p.1 p.2 0).length := rfl
+
+/-- an atom exactly on the boundary `b` between two slices belongs to the upper one only -/
+theorem sliced_boundary_goes_up (a b c : Rat) (_hab : a < b) (hbc : b < c) :
+    (inSliceLo b a b 0 && inSliceHi b a b 0) = false ∧ (inSliceLo b b c 0 && inSliceHi b b c 0) = true := by
+  constructor
+  · rw [Bool.eq_false_iff]; intro h; have := (inSlice_iff _ _ _ _).mp h; linarith [this.2]
+  · exact (inSlice_iff _ _ _ _).mpr ⟨by linarith, by linarith⟩
+
 section projection
 variable {V : Type} [AddCommMonoid V] {P : Type}
 
